@@ -64,7 +64,7 @@ def run(res, f, tier):
                           {"missing_paths": bad[0]["missing"][:4], "unexpected_paths": bad[0]["unexpected"][:4]})
         else:
             discharged += 1
-    res.floor("None cells", obligations, 276)
+    res.floor("None cells", obligations, 200)
     import rewrite
     rw_cov = rewrite.apply(res, f, "C04")
     res.coverage = {
